@@ -47,6 +47,7 @@ type stats struct {
 	lenient          int64
 	multiAt          int64
 	roundTrips       int64
+	trivial          int64
 	forms            map[byte]int64 // accepted, by form
 	repoEvals        int64
 	repoJudged       int64
@@ -89,6 +90,7 @@ func (st *stats) merge(o *stats) {
 	st.lenient += o.lenient
 	st.multiAt += o.multiAt
 	st.roundTrips += o.roundTrips
+	st.trivial += o.trivial
 	st.repoEvals += o.repoEvals
 	st.repoJudged += o.repoJudged
 	st.repoAccepted += o.repoAccepted
@@ -199,7 +201,7 @@ func evalParse(st *stats, s string) {
 
 	// structural key and non-triviality
 	if m.Form == '-' {
-		st.keys[0] = false
+		st.trivial++
 		return
 	}
 	bad := 0
@@ -216,15 +218,18 @@ func evalParse(st *stats, s string) {
 	if m.V == vReject && bad == 1 {
 		st.nearMiss++
 	}
-	h := fnv.New64a()
-	h.Write([]byte{byte(m.V), m.Form, byte(m.Reg), '|'})
-	h.Write([]byte(shape(m.P.Registry, 2)))
-	h.Write([]byte{'|'})
-	h.Write([]byte(shape(m.P.Repository, 3)))
-	h.Write([]byte{'|'})
-	h.Write([]byte(shape(m.P.Reference, 3)))
-	k := h.Sum64() | 1
-	st.keys[k] = st.keys[k] || nt
+	if !nt {
+		st.trivial++ // only non-trivial shapes are kept (memory)
+	} else {
+		h := fnv.New64a()
+		h.Write([]byte{byte(m.V), m.Form, byte(m.Reg), '|'})
+		h.Write([]byte(shape(m.P.Registry, 2)))
+		h.Write([]byte{'|'})
+		h.Write([]byte(shape(m.P.Repository, 3)))
+		h.Write([]byte{'|'})
+		h.Write([]byte(shape(m.P.Reference, 3)))
+		st.keys[h.Sum64()] = true
+	}
 	switch {
 	case m.V == vAccept:
 		st.sample("accepted-form-"+string(m.Form), s)
@@ -484,6 +489,7 @@ func report(r *evidence.Run, phase string, st *stats) {
 	r.Add("trailing_colon_or_at", st.lenient)
 	r.Add("multi_at_paths", st.multiAt)
 	r.Add("round_trips_checked", st.roundTrips)
+	r.Add("trivial_strings", st.trivial)
 	r.Add("repository_parse_evaluations", st.repoEvals)
 	r.Add("repository_parse_judged", st.repoJudged)
 	r.Add("repository_parse_accepted", st.repoAccepted)
@@ -522,7 +528,7 @@ func main() {
 		"Every string is parsed by the library and by an independent recogniser; accepted results are compared part by part and formatted and re-parsed. " +
 		"distinct = hash(verdict, form, registry class, run-collapsed character-class shapes of registry, repository and reference (first 2, 3 and 3 classes)) for strings, " +
 		"hash(operation set, reference form, scheme, registry class, repository segments, reference shape) for URL cases; " +
-		"non-trivial = string with a '/' that is judged and either accepted or rejected with exactly one invalid component (near miss); URL case non-trivial = at least one request was issued for an accepted reference")
+		"non-trivial = string with a '/' that is judged and either accepted or rejected with exactly one invalid component (near miss), only these shapes are kept; URL case non-trivial = at least one request was issued for an accepted reference")
 	r.Assume("acceptance is not judged for strings ending in a bare ':' or '@' whose lenient reading is acceptable, for paths with several '@' whose last one starts a digest, and for registries outside {DNS labels, IPv4, bracketed IPv6} with optional port 0–65535 that are not surely invalid (net/url decides those); parts and round trip are still checked whenever the library accepts")
 	r.Assume("digest algorithms registered in this binary: sha256, sha384, sha512 (crypto/sha256 and crypto/sha512 linked)")
 	r.Assume("the recording RoundTripper answers with canned responses; no socket is opened")
